@@ -407,15 +407,14 @@ Section C05.
   Lemma inv5_exec env s a s' : inv5 s -> exec P env s a = Ok s' -> inv5 s' /\ keeps (is_akey P) s s'.
   Proof.
     intro I.
-    destruct a as [m cb|m cb1 cb2 cb3|cb|name ok| |name c ok|name c ok|addr chains addrs]; cbn [exec]; intro H.
+    destruct a as [m cb|m cb1 cb2 cb3|cb|name ok| |name c ok|name c ok|addr chains addrs|name c ok]; cbn [exec]; intro H.
     - eapply inv5_recv_handler; eauto.
     - eapply inv5_ack_handler; eauto.
     - destruct (cb_fail cb); [discriminate|]. split; [eapply inv5_hook; eauto|].
       eapply hook_sends_keeps; [apply akey_not_n | apply akey_not_c' | exact H].
     - destruct ok; inversion H; subst; split; [exact I | apply keeps_refl].
     - inversion H; subst; split; [exact I | apply keeps_refl].
-    - unfold register_client in H. destruct (valid_name P name) eqn:Vn; cbn in H; [|discriminate].
-      destruct (aget name (st_clients s)); [discriminate|]. destruct ok; inversion H; subst.
+    - apply register_client_ok in H as (Vn & Nn & _ & H); subst s'.
       split; [|intros k v _ X; exact X].
       destruct I as (A & B & C & D). split; [exact A|]. split; [|split; assumption].
       intros n c0. cbn [st_clients set_clients]. rewrite aget_aset.
@@ -428,6 +427,7 @@ Section C05.
       intros n c1. cbn [st_clients set_clients]. rewrite aget_aset.
       destruct (bytes_eqb_spec n name) as [->|_]; [intros _; exact Vn | apply B].
     - inversion H; subst. split; [exact I | intros k v _ X; exact X].
+    - apply upgrade_client_ok in H; subst s'. split; [exact I | apply keeps_refl].
   Qed.
 
   (** *** C05.acks_monotone *)
@@ -497,7 +497,7 @@ Section C05.
   Proof.
     intros H Hk Hn.
     assert (NS : forall s0 s1, stays_all s0 s1 -> sget k s0 <> None -> sget k s1 <> None) by (intros s0 s1 X; apply X; exact I).
-    destruct a as [m cb|m cb1 cb2 cb3|cb|name ok| |name c ok|name c ok|addr chains addrs]; cbn [exec] in H.
+    destruct a as [m cb|m cb1 cb2 cb3|cb|name ok| |name c ok|name c ok|addr chains addrs|name c ok]; cbn [exec] in H.
     - exfalso. apply (NS _ _ (recv_handler_stays_all _ _ _ _ _ H)); [rewrite Hk; discriminate | exact Hn].
     - exists m, cb1, cb2, cb3. split; [reflexivity|].
       pose proof (ack_accepted_verified P sha_nonempty env s m cb1 cb2 cb3 s' H) as AV.
@@ -525,11 +525,11 @@ Section C05.
       apply (NS _ _ (hook_stays_all _ _ _ H)); [rewrite Hk; discriminate | exact Hn].
     - destruct ok; inversion H; subst; congruence.
     - inversion H; subst; congruence.
-    - unfold register_client in H. destruct (valid_name P name); cbn in H; [|discriminate].
-      destruct (aget name (st_clients s)); [discriminate|]. destruct ok; inversion H; subst. unfold sget in *; cbn in Hn; congruence.
+    - apply register_client_ok in H as (Vn & Nn & _ & H); subst s'. unfold sget in *; cbn in Hn; congruence.
     - unfold toggle_client in H. destruct (valid_name P name); cbn in H; [|discriminate].
       destruct (aget name (st_clients s)) as [c0|]; [|discriminate].
       destruct (c0 =? c); [discriminate|]. destruct ok; inversion H; subst. unfold sget in *; cbn in Hn; congruence.
     - inversion H; subst. unfold sget in *; cbn in Hn; congruence.
+    - apply upgrade_client_ok in H; subst s'. congruence.
   Qed.
 End C05.
